@@ -65,7 +65,7 @@ class PaneBase:
     ):
         old_params = getattr(cls, '__parameters__', ())
         super().__init_subclass__(*args, **kwargs)
-        setattr(cls, '__parameters__', old_params + getattr(cls, '__parameters__', ()))
+        setattr(cls, '__parameters__', old_params + tuple(p for p in getattr(cls, '__parameters__', ()) if p not in old_params))
 
         if rename is not None:
             if in_rename is not None or out_rename is not None:
